@@ -2,8 +2,12 @@ package main
 
 import (
 	"fmt"
+	"go/ast"
+	"go/parser"
+	"go/token"
 	"os"
 	"path/filepath"
+	"strconv"
 	"strings"
 
 	"verif/harness/gendoc"
@@ -53,7 +57,81 @@ func runGen(repo, outDir string) error {
 	}
 	sb.WriteString("].\n")
 	must(os.WriteFile(filepath.Join(outDir, "Sites.v"), []byte(sb.String()), 0o644))
+
+	// Targets.v: the switch of generationTargets in cmd/oapi-codegen
+	tt, err := scanTargets(repo)
+	if err != nil {
+		return err
+	}
+	sb.Reset()
+	sb.WriteString("(* GENERATED from /repo/cmd/oapi-codegen/oapi-codegen.go (generationTargets) on every run. Do not edit. *)\n")
+	sb.WriteString("From Coq Require Import List String.\nFrom V Require Import Model.Cli.\nImport ListNotations.\nLocal Open Scope string_scope.\n\n")
+	sb.WriteString("Definition scanned_targets : list (string * target_effect) := [\n")
+	for i, t := range tt {
+		sep := ";"
+		if i == len(tt)-1 {
+			sep = ""
+		}
+		fmt.Fprintf(&sb, "  (%s, %s)%s\n", coqLitStr(t[0]), t[1], sep)
+	}
+	sb.WriteString("].\n")
+	must(os.WriteFile(filepath.Join(outDir, "Targets.v"), []byte(sb.String()), 0o644))
 	return nil
+}
+
+var targetEffects = map[string]string{"IrisServer": "EIris", "ChiServer": "EChi", "FiberServer": "EFiber", "EchoServer": "EEcho", "GinServer": "EGin",
+	"GorillaServer": "EGorilla", "StdHTTPServer": "EStdHTTP", "Strict": "EStrict", "Client": "EClient", "Models": "EModels", "EmbeddedSpec": "ESpec",
+	"SkipFmt": "ESkipFmt", "SkipPrune": "ESkipPrune"}
+
+// scanTargets reads the (label, effect) pairs of the switch in generationTargets.
+func scanTargets(repo string) ([][2]string, error) {
+	fset := token.NewFileSet()
+	f, err := parser.ParseFile(fset, filepath.Join(repo, "cmd", "oapi-codegen", "oapi-codegen.go"), nil, 0)
+	if err != nil {
+		return nil, err
+	}
+	var out [][2]string
+	found := false
+	for _, d := range f.Decls {
+		fd, ok := d.(*ast.FuncDecl)
+		if !ok || fd.Name.Name != "generationTargets" {
+			continue
+		}
+		found = true
+		ast.Inspect(fd.Body, func(n ast.Node) bool {
+			cc, ok := n.(*ast.CaseClause)
+			if !ok || len(cc.List) == 0 {
+				return true
+			}
+			effect := "EUnknown_no_assignment"
+			if len(cc.Body) == 1 {
+				if as, ok := cc.Body[0].(*ast.AssignStmt); ok && len(as.Lhs) == 1 {
+					if sel, ok := as.Lhs[0].(*ast.SelectorExpr); ok {
+						if id, ok := as.Rhs[0].(*ast.Ident); ok && id.Name == "true" {
+							if e, ok := targetEffects[sel.Sel.Name]; ok {
+								effect = e
+							} else {
+								effect = "EUnknown_" + sel.Sel.Name
+							}
+						}
+					}
+				}
+			} else {
+				effect = "EUnknown_several_statements"
+			}
+			for _, l := range cc.List {
+				if bl, ok := l.(*ast.BasicLit); ok {
+					s, _ := strconv.Unquote(bl.Value)
+					out = append(out, [2]string{s, effect})
+				}
+			}
+			return true
+		})
+	}
+	if !found {
+		return nil, fmt.Errorf("generationTargets not found")
+	}
+	return out, nil
 }
 
 func coqLitStr(s string) string { return `"` + strings.ReplaceAll(s, `"`, `""`) + `"` }
